@@ -324,5 +324,8 @@ def run(res, tier):
                               {"decl": key, "base": b, "with_option": r, "flags": flags})
     res.add(presentation_option_sets=nopt)
     replay_cxx(res, tier, decls)
+    # structs with bit-fields: TrackerBits.tla (L2 with allocation units) model-checked and replayed
+    import c02_bits
+    c02_bits.run(res, tier)
     trace_corpus(res, tier)
     res.cov["exhaustive"] = False
